@@ -399,3 +399,12 @@ Proof.
   intros H H1 H2. destruct (oto_inverse_after_any_history hops o H) as [[A [B C]] _].
   apply C in H1. apply C in H2. apply In_get in H1; trivial. apply In_get in H2; trivial. congruence.
 Qed.
+
+(* unhashable operands: refused before anything is written; update is all-or-nothing *)
+Lemma update_all_or_nothing o kvs : existsb kv_unhashable kvs = true ->
+  oto_step o (OUpdate kvs) = (o, Raise TypeError) /\ oto_step o (OIor kvs) = (o, Raise TypeError).
+Proof. intro H. simpl. rewrite H. split; reflexivity. Qed.
+
+Lemma setitem_refuses_unhashable o k v : unhashable k || unhashable v = true ->
+  oto_step o (OSet k v) = (o, Raise TypeError).
+Proof. intro H. simpl. rewrite orb_comm, H. reflexivity. Qed.
